@@ -454,6 +454,67 @@ theorem mem_paths_createD (e : Expr) : ∀ br p,
     simp only [createD, exprWords, Forest.paths_append, List.mem_append, crossO_append_left,
       iha br p, ihb br p]
 
+/-! ### the list form: item by item -/
+
+theorem compileItem_error (uw : Char → Bool) (it : Item) (e : Exc)
+    (h : compileItem uw it = .error e) : e = .valueError ∧ ∃ s, it = .text s ∧ parseChars uw s = none := by
+  cases it with
+  | text s =>
+    simp only [compileItem, compileChars] at h
+    cases hp : parseChars uw s with
+    | none => rw [hp] at h; cases h; exact ⟨rfl, s, rfl, hp⟩
+    | some c =>
+      rw [hp] at h
+      simp only [compileExpr, create_total] at h
+      cases h
+  | expr x =>
+    simp only [compileItem, compileExpr, create_total] at h
+    cases h
+
+/-- a list is rejected iff one of its items is -/
+theorem compileItems_error (uw : Char → Bool) (items : List Item) :
+    (∃ e, compileItems uw items = .error e) ↔ ∃ it ∈ items, ∃ e, compileItem uw it = .error e := by
+  induction items with
+  | nil => simp [compileItems]
+  | cons it rest ih =>
+    simp only [compileItems, List.mem_cons, exists_eq_or_imp]
+    cases hi : compileItem uw it with
+    | error e => simp
+    | ok g =>
+      cases hr : compileItems uw rest with
+      | error e =>
+        have := ih.mp ⟨e, hr⟩
+        simp [this]
+      | ok gs =>
+        have : ¬ ∃ it ∈ rest, ∃ e, compileItem uw it = .error e := fun h => by
+          obtain ⟨e, he⟩ := ih.mpr h
+          rw [hr] at he; cases he
+        simp [this]
+
+/-- … and otherwise denotes the union of what its items denote -/
+theorem compileItems_paths (uw : Char → Bool) (items : List Item) (gs : Forest)
+    (h : compileItems uw items = .ok gs) :
+    ∀ p, p ∈ gs.paths ↔ ∃ it ∈ items, ∃ g, compileItem uw it = .ok g ∧ p ∈ g.paths := by
+  induction items generalizing gs with
+  | nil =>
+    simp only [compileItems] at h
+    cases h
+    intro p; simp [Forest.paths]
+  | cons it rest ih =>
+    simp only [compileItems] at h
+    cases hi : compileItem uw it with
+    | error e => rw [hi] at h; cases h
+    | ok g =>
+      rw [hi] at h
+      cases hr : compileItems uw rest with
+      | error e => rw [hr] at h; cases h
+      | ok gr =>
+        rw [hr] at h
+        cases h
+        intro p
+        rw [Forest.paths_append, List.mem_append, ih gr hr p]
+        simp only [List.mem_cons, exists_eq_or_imp, hi, Except.ok.injEq, exists_eq_left']
+
 /-! ### the code's notify propagation is the documented notify law -/
 
 theorem notifies_some (c : Conn) : notifies (some c) = (c == .notify) := by
